@@ -361,3 +361,6 @@ def run(repo: Repo, rep: Report, tier: str) -> None:
     from .c05 import codec_fold_rule as _cfr12
 
     _cfr12(repo, rep, "C12.R14")
+    from .c05 import leb128_rule as _leb
+
+    _leb(repo, rep, "C12.R15")
